@@ -455,22 +455,29 @@ Proof.
 Qed.
 
 (* ---------------------------------------------------------------- readHeader and the staging buffer *)
-(* "a header attempt that restarts from the staged bytes plus X leaves at most the bits of X" *)
+(* "a header attempt that restarts from the staged bytes plus X consumes all the staged bytes, and
+   if it succeeds, all their bits: what is left unread belongs to X" *)
+Definition restart_ok (s' : inflate) (X : list N) : Prop :=
+  r_inlen (rd (fst (tryDecodeHeader s'))) <= N.of_nat (length X) /\
+  (snd (tryDecodeHeader s') = ENone ->
+   (avail (rd (fst (tryDecodeHeader s'))) <= 8 * Z.of_nat (length X))%Z).
+
 Definition staged_ok (s : inflate) : Prop :=
   forall s' X, dyn s' = dyn s -> tb s' = tb s ->
     rd s' = mkBR (r_bits (rd s)) (r_len (rd s)) (headerBuffer s ++ X)
                  (headerBuffered s + N.of_nat (length X)) ->
-    (avail (rd (fst (tryDecodeHeader s'))) <= 8 * Z.of_nat (length X))%Z.
+    restart_ok s' X.
 
 (* Hypothesis 2: if a header attempt runs out of input, then any attempt that restarts with the same
    bit buffer on a prefix of that input followed by more bytes X (and with the tables the failed
-   attempt left behind) consumes the whole prefix: the unread bits all belong to X. *)
+   attempt left behind) loads the whole prefix, and if it succeeds it has consumed every bit of the
+   prefix: the unread bits all belong to X. *)
 Definition HeaderRestartMonotone : Prop :=
   forall s s2, hdr_pre s -> tryDecodeHeader s = (s2, EEndInput) ->
   forall n X s', dyn s' = dyn s2 -> tb s' = tb s2 ->
     rd s' = mkBR (r_bits (rd s)) (r_len (rd s)) (firstn n (r_in (rd s)) ++ X)
                  (N.of_nat (length (firstn n (r_in (rd s)))) + N.of_nat (length X)) ->
-    (avail (rd (fst (tryDecodeHeader s'))) <= 8 * Z.of_nat (length X))%Z.
+    restart_ok s' X.
 
 Definition inf_inv (s : inflate) : Prop :=
   br_inv (rd s) /\ (0 <= r_len (rd s))%Z /\ clc_ok (dyn s) /\ tabs_ok2 (tb s) /\
@@ -526,17 +533,15 @@ Proof.
   destruct P9 as (F1 & F2 & F3 & F4 & F5).
   (* the staged case: at most copySize bytes are left *)
   assert (Hleft : staged = true -> r_inlen (rd s2) <= copySize /\
-                                   (0 <= r_len (rd s2) -> r_len (rd s2) <= 8 * (Z.of_N copySize - Z.of_N (r_inlen (rd s2))))%Z).
+                                   (err = ENone -> 0 <= r_len (rd s2) -> r_len (rd s2) <= 8 * (Z.of_N copySize - Z.of_N (r_inlen (rd s2))))%Z).
   { intros Hst. assert (Hph : phase s = phaseDecodingHeader) by (unfold staged in Hst; lia).
     pose proof (Istg Hph s1 (firstn (N.to_nat copySize) (r_in b0))) as Hso.
-    rewrite ETD in Hso. cbn [fst] in Hso. rewrite Hfl in Hso.
+    unfold restart_ok in Hso. rewrite ETD in Hso. cbn [fst snd] in Hso. rewrite Hfl in Hso.
     assert (Hrd1 : rd s1 = mkBR (r_bits (rd s)) (r_len (rd s)) (headerBuffer s ++ firstn (N.to_nat copySize) (r_in b0))
                                 (headerBuffered s + N.of_nat (N.to_nat copySize))).
     { unfold s1. rewrite Hst. sproj. fold b0. fold hb. unfold br_set_in. f_equal. lia. }
-    specialize (Hso S1c S1d Hrd1). unfold avail in Hso.
-    destruct (Z.ltb_spec (r_len (rd s2)) 0) as [Hn|Hn].
-    - rewrite (R3 Hn). split; [lia|]. intros; lia.
-    - split; [lia|]. intros _. lia. }
+    specialize (Hso S1c S1d Hrd1). destruct Hso as (Hso1 & Hso2). unfold avail in Hso2.
+    split; [lia|]. intros He _. specialize (Hso2 He). lia. }
   set (read := (Z.of_N (copySize + hb) - Z.of_N (r_inlen (rd s2)) - Z.of_N hb)%Z) in *.
   assert (Hnp : (staged && ((read <? 0)%Z || (Z.of_N (r_inlen b0) <? read)%Z)) = false).
   { destruct staged; [|reflexivity]. destruct (Hleft eq_refl) as (Hl1 & _). unfold read. cbn [andb]. lia. }
@@ -552,7 +557,7 @@ Proof.
                   (Z.of_N (r_inlen (rd s3)) + r_len (rd s2) / 8 <= owed s)%Z /\
                   (avail (rd s3) + 3 <= hmeasure s)%Z /\ r_inlen (rd s3) <= r_inlen b0).
     { unfold s3. destruct staged eqn:Est.
-      - destruct (Hleft eq_refl) as (Hl1 & Hl2). specialize (Hl2 Q1). sproj.
+      - destruct (Hleft eq_refl) as (Hl1 & Hl2). specialize (Hl2 eq_refl Q1). sproj.
         assert (Hread : read = (Z.of_N copySize - Z.of_N (r_inlen (rd s2)))%Z) by (unfold read; lia).
         split; [unfold br_inv; cbn [br_set_in r_bits r_in r_inlen r_len]; rewrite skipn_length; split; [lia|split; [exact R2|intros; lia]]|].
         repeat (split; [reflexivity|]).
